@@ -136,6 +136,8 @@ def verify_gpio_elaborate():
     # (whether the flip-flops are reset_less is NOT claimed: C16 quantifies over register transactions and pin waveforms, not over
     #  resets of the clock domain)
     fv.add("cover:one-pin-iteration", "vacuity", [], z3.BoolVal(n_p >= 1 and len(ffs) >= 1))
+    from .hdlrec import stores_nothing_on_the_component as _frame
+    _frame(fv, ex)
     fv.add_engine_obligations(ex)
     return fv
 
